@@ -14,6 +14,7 @@ import FeatModel.Lemmas.C18_tp
 import FeatModel.Lemmas.C18_nested
 import FeatModel.Lemmas.C18_intref
 import FeatModel.Lemmas.C18_layout
+import FeatModel.Lemmas.C18_convert
 import Mathlib.Tactic.IntervalCases
 /-! # C18 — property theorems (statements only; proofs live in Lemmas/C18_*.lean)
 
@@ -208,6 +209,51 @@ theorem C18.transfer_is_matrix_product (P T : FeatModel.LA.Csr Rat) (hP : P.vali
     (∃ xt, (Transfer.ofProl P T).applyTrunc yf vc0 = some xt ∧
         ∀ j, j < P.cols → xt.getD j 0 = ∑ i ∈ range P.rows, T.entry j i * yf.getD i 0) :=
   C18L.transfer_products P T hP hT hTr hTc xc vf0 yf vc0 hxc hvf hyf hvc
+
+/-! ### `convert` / `clone` of transfer objects
+
+`Transfer.convert cv` / `Transfer.clone m` (and `GTransfer.convert` / `GTransfer.clone`) model
+`LAFEM::Transfer::convert(other)`, `clone(mode)` and the `Global::Transfer` counterparts as field-wise maps of the record
+`(P, R, T [, muxer])`.  The driver runs prol / rest / trunc / trunc∘prol and the three matrix getters on the original,
+the converted (index types `u64 → u32 → u64`) and the cloned (shallow / weak / deep) local and global objects of every
+`xfer`, `gxfer` and `fe` case. -/
+
+/-- **transfer_convert_fieldwise**: the converted object's prolongation / restriction / truncation matrix is the
+converted prolongation / restriction / truncation matrix of the source — never another field — and its members apply
+exactly these matrices; dimensions, layout arrays and validity of the layout survive any value conversion -/
+theorem C18.transfer_convert_fieldwise (cv : Rat → Rat) (t : Transfer) (vf vc : Array Rat) :
+    ((t.convert cv).prol = csrConvert cv t.prol ∧ (t.convert cv).rest = csrConvert cv t.rest ∧
+      (t.convert cv).trunc = csrConvert cv t.trunc) ∧
+    ((t.convert cv).applyProl vf vc = (csrConvert cv t.prol).applyQ vc vf false ∧
+      (t.convert cv).applyRest vf vc = (csrConvert cv t.rest).applyQ vf vc false ∧
+      (t.convert cv).applyTrunc vf vc = (csrConvert cv t.trunc).applyQ vf vc false) ∧
+    (∀ A : FeatModel.LA.Csr Rat, (csrConvert cv A).rows = A.rows ∧ (csrConvert cv A).cols = A.cols ∧
+      (csrConvert cv A).rowPtr = A.rowPtr ∧ (csrConvert cv A).colInd = A.colInd ∧
+      (csrConvert cv A).valid = A.valid ∧
+      ∀ k, k < A.val.size → (csrConvert cv A).val.getD k 0 = cv (A.val.getD k 0)) := by
+  obtain ⟨h1, h2, h3, h4, h5, h6⟩ := C18L.transfer_convert_fields cv t vf vc
+  refine ⟨⟨h1, h2, h3⟩, ⟨h4, h5, h6⟩, fun A => ?_⟩
+  obtain ⟨a, b, c, d, _, f⟩ := C18L.csrConvert_layout cv A
+  exact ⟨a, b, c, d, C18L.csrConvert_valid cv A, f⟩
+
+/-- with a value-preserving conversion (change of the index type, as in the runs at `Q`) and for the value-preserving
+clone modes the converted / cloned object is the same record, locally and globally — hence `R = Pᵀ`
+(`C18.restriction_is_transpose`), the products (`C18.transfer_is_matrix_product`, `C18.global_transfer_eq_local`) and
+`T·P = 1` (`C18.truncation_prolongation_identity`) are inherited verbatim by the converted and the cloned objects -/
+theorem C18.transfer_convert_inherits (t : Transfer) (g : GTransfer) (mux : Option MuxerM) (m : CloneMode) :
+    t.convert id = t ∧ t.clone m = t ∧
+    g.convert mux id = { muxer := mux, locals := g.locals } ∧ g.clone m = g :=
+  ⟨(C18L.transfer_convert_id t m).1, (C18L.transfer_convert_id t m).2,
+    (C18L.gtransfer_convert_id g mux m).1, (C18L.gtransfer_convert_id g mux m).2⟩
+
+/-- witness that the field matters: `P = (1,1)ᵀ`; an object whose truncation was filled from the restriction
+(`T := R = Pᵀ`, same dimensions and layout, nothing asserts) returns `trunc(prol(3)) = 6`, the proper
+`T = (1/2 1/2)` returns `3`, while `prol` is the same for both -/
+theorem C18.wrong_source_breaks_left_inverse :
+    (Transfer.ofProl C18L.witnessP C18L.witnessP.transpose).applyTrunc #[3, 3] #[0] = some #[6] ∧
+    (Transfer.ofProl C18L.witnessP C18L.witnessT).applyTrunc #[3, 3] #[0] = some #[3] ∧
+    (Transfer.ofProl C18L.witnessP C18L.witnessT).applyProl #[0, 0] #[3] = some #[3, 3] :=
+  C18L.wrong_source_breaks_left_inverse
 
 /-! ### `Global::Transfer` (kernel/global/transfer.hpp)
 
